@@ -179,8 +179,9 @@ class FsExecutor(object):
         p, ln = self.put_path(nb)
         rights = (RIGHTS_READ if read else 0) | (RIGHTS_WRITE if write else 0)
         self.agent.fill(RES, 16)
+        stale_before = nb[:1] != b'/' and self._stale(dirfd)
         r = self.agent.call('path_open', unstable, dirfd, 0, p, ln, oflags, rights, rights, FDFLAG_APPEND if append else 0, RES)
-        if nb[:1] != b'/' and self._stale(dirfd):
+        if stale_before:
             self.flags.add('descriptor_path_no_longer_denotes_its_directory')
             if r == 0:
                 # a descriptor was handed out for something this model cannot name: close it again, unchecked
@@ -793,6 +794,9 @@ class FsExecutor(object):
         before = None
         if too_long or empty:
             before = self.tree_listing()
+        # judged BEFORE the call (the call itself may rename the component away)
+        stale_before = (nb[:1] != b'/' and self._stale(dirfd if op != 'symlink' else d2)) or \
+            (nb2 is not None and op == 'rename' and nb2[:1] != b'/' and self._stale(d2))
         a.fill(RES, 16)
         a.fill(DIRBUF, bufsize + 16)
         a.fill(STATBUF, 80)
@@ -815,7 +819,7 @@ class FsExecutor(object):
         rep = a.sanitizer_report()
         if rep:
             self.fail('sanitizer', 'sanitizer report during path_%s: %s' % (op, cexec.san_head(rep, 800)))
-        if (nb[:1] != b'/' and self._stale(dirfd if op != 'symlink' else d2)) or (nb2 is not None and op == 'rename' and nb2[:1] != b'/' and self._stale(d2)):
+        if stale_before:
             self.flags.add('descriptor_path_no_longer_denotes_its_directory')
             if r == 0 and op not in ('readlink', 'filestat_get'):
                 self.tree_unknown = True
